@@ -50,3 +50,153 @@ pub fn basic_mapfile(cfg: &Value) -> String {
     lines.extend(intr);
     lines.join("\n") + "\n"
 }
+
+// ---------------------------------------------------------------------------------------------
+// Full expression-language configurations (C02 / C05)
+
+/// Everything the harness declared about a language configuration.
+pub struct FullLang {
+    pub mapfile: String,
+    /// opcode -> signature letters
+    pub sigs: std::collections::BTreeMap<u16, String>,
+    /// ToString(opcode) -> {kind, op, ty}   (handed to RawSem)
+    pub intr: serde_json::Map<String, Value>,
+}
+
+fn strs(v: &Value) -> Vec<String> {
+    v.as_array().map(|a| a.iter().map(|x| x.as_str().unwrap().to_string()).collect()).unwrap_or_default()
+}
+
+/// cfg keys: int_regs float_regs scratch_int scratch_float  assign_ops binops unops (lists of operator
+/// strings that exist natively, for both types)  cond_jmp ("single"|"two"|"none")  count_jmp ("!="|">"|"none")
+/// jmp_order ("ot"|"to"|"o")  aux_flags (bool: define default-on flags 4..7)
+pub fn full_lang(cfg: &Value) -> FullLang {
+    let mut lines = vec!["!anmmap".to_string(), "!gvar_types".to_string()];
+    for r in ids(&cfg["int_regs"]) { lines.push(format!("{} $", r)); }
+    for r in ids(&cfg["float_regs"]) { lines.push(format!("{} %", r)); }
+    if let Some(al) = cfg["aliases"].as_object() {
+        lines.push("!gvar_names".into());
+        for (name, reg) in al { lines.push(format!("{} {}", reg.as_i64().unwrap(), name)); }
+    }
+    let mut sigs = std::collections::BTreeMap::<u16, String>::new();
+    let mut intr_lines = vec![];
+    let mut intr = serde_json::Map::new();
+    let mut add = |op: u16, sig: String, name: Option<(String, Value)>| {
+        sigs.insert(op, sig);
+        if let Some((text, entry)) = name { intr_lines.push(format!("{} {}", op, text)); intr.insert(op.to_string(), entry); }
+    };
+    let jmp = match cfg["jmp_order"].as_str().unwrap_or("ot") { "to" => "to", "o" => "o", _ => "ot" };
+    add(1, jmp.to_string(), Some(("Jmp()".into(), serde_json::json!({"kind": "Jmp"}))));
+    match cfg["count_jmp"].as_str().unwrap_or("!=") {
+        "!=" => add(2, format!("S{}", jmp), Some(("CountJmp()".into(), serde_json::json!({"kind": "CountJmp", "op": "!="})))),
+        ">" => add(2, format!("S{}", jmp), Some(("CountJmp(op=\">\")".into(), serde_json::json!({"kind": "CountJmp", "op": ">"})))),
+        _ => {},
+    }
+    let tys = [("int", "S", "i"), ("float", "f", "f")];
+    let mut op = 10u16;
+    for a in ["=", "+=", "-=", "*=", "/=", "%="] {
+        for (tyname, l, t) in tys {
+            if strs(&cfg["assign_ops"]).iter().any(|x| x == a) {
+                let binop = a.trim_end_matches('=');
+                let opname = if a == "=" { "=" } else { binop };
+                add(op, format!("{l}{l}"), Some((format!("AssignOp(op=\"{a}\";type=\"{tyname}\")"),
+                    serde_json::json!({"kind": "AssignOp", "op": opname, "ty": t}))));
+            }
+            op += 1;
+        }
+    }
+    let mut op = 30u16;
+    for b in ["+", "-", "*", "/", "%"] {
+        for (tyname, l, t) in tys {
+            if strs(&cfg["binops"]).iter().any(|x| x == b) {
+                add(op, format!("{l}{l}{l}"), Some((format!("BinOp(op=\"{b}\";type=\"{tyname}\")"),
+                    serde_json::json!({"kind": "BinOp", "op": b, "ty": t}))));
+            }
+            op += 1;
+        }
+    }
+    // comparison operators as values: `a = b < c` (the output is an int for both operand types)
+    let mut op = 80u16;
+    for c in ["==", "!=", "<", "<=", ">", ">="] {
+        for (tyname, l, t) in tys {
+            if strs(&cfg["cmp_binops"]).iter().any(|x| x == c) {
+                add(op, format!("S{l}{l}"), Some((format!("BinOp(op=\"{c}\";type=\"{tyname}\")"),
+                    serde_json::json!({"kind": "BinOp", "op": c, "ty": t}))));
+            }
+            op += 1;
+        }
+    }
+    let mut op = 60u16;
+    for u in ["-"] {
+        for (tyname, l, t) in tys {
+            if strs(&cfg["unops"]).iter().any(|x| x == u) {
+                add(op, format!("{l}{l}"), Some((format!("UnOp(op=\"{u}\";type=\"{tyname}\")"),
+                    serde_json::json!({"kind": "UnOp", "op": u, "ty": t}))));
+            }
+            op += 1;
+        }
+    }
+    match cfg["cond_jmp"].as_str().unwrap_or("single") {
+        "single" => {
+            let mut op = 40u16;
+            for c in ["==", "!=", "<", "<=", ">", ">="] {
+                for (tyname, l, t) in tys {
+                    add(op, format!("{l}{l}{jmp}"), Some((format!("CondJmp(op=\"{c}\";type=\"{tyname}\")"),
+                        serde_json::json!({"kind": "CondJmp", "op": c, "ty": t}))));
+                    op += 1;
+                }
+            }
+        },
+        "two" => {
+            add(70, "SS".into(), Some(("DedicatedCmp(type=\"int\")".into(), serde_json::json!({"kind": "DedicatedCmp", "ty": "i"}))));
+            add(71, "ff".into(), Some(("DedicatedCmp(type=\"float\")".into(), serde_json::json!({"kind": "DedicatedCmp", "ty": "f"}))));
+            let mut op = 72u16;
+            for c in ["==", "!=", "<", "<=", ">", ">="] {
+                add(op, jmp.to_string(), Some((format!("DedicatedCmpJmp(op=\"{c}\")"), serde_json::json!({"kind": "DedicatedCmpJmp", "op": c}))));
+                op += 1;
+            }
+        },
+        _ => {},
+    }
+    if let Some(a) = cfg["anti"].as_i64() { add(a as u16, "".into(), None); }
+    for (i, s) in ["", "S", "f", "SS", "Sf", "fS", "ff", "SSS"].iter().enumerate() { add(100 + i as u16, s.to_string(), None); }
+    drop(add);
+
+    lines.push("!difficulty_flags".into());
+    for (i, f) in ["E-", "N-", "H-", "L-"].iter().enumerate() { lines.push(format!("{} {}", i, f)); }
+    if cfg["aux_flags"].as_bool().unwrap_or(false) {
+        for (i, f) in ["4+", "5+", "6+", "7+"].iter().enumerate() { lines.push(format!("{} {}", 4 + i, f)); }
+    }
+    lines.push("!ins_signatures".into());
+    for (op, s) in &sigs { lines.push(format!("{} {}", op, s)); }
+    lines.push("!ins_intrinsics".into());
+    lines.extend(intr_lines);
+    FullLang { mapfile: lines.join("\n") + "\n", sigs, intr }
+}
+
+/// Decode the argument blob of an emitted instruction with the signature the harness declared
+/// (4-byte fields; padding letters `_` take 4 bytes and no parameter-mask bit).  Purely structural.
+pub fn decode_instr(i: &truth::llir::RawInstr, sig: &str, off: u64) -> Result<Value, String> {
+    let mut args = vec![];
+    let mut pos = 0usize;
+    let mut bit = 0u32;
+    for l in sig.chars() {
+        if pos + 4 > i.args_blob.len() { return Err(format!("blob too short for signature {}", sig)); }
+        let word = u32::from_le_bytes([i.args_blob[pos], i.args_blob[pos + 1], i.args_blob[pos + 2], i.args_blob[pos + 3]]);
+        pos += 4;
+        if l == '_' { continue; }
+        let is_reg = (i.param_mask >> bit) & 1 == 1;
+        bit += 1;
+        let letter = match l { 'S' | 'f' | 'o' | 't' => l.to_string(), other => return Err(format!("unsupported letter {}", other)) };
+        if is_reg {
+            let regnum = if l == 'f' { f32::from_bits(word) as i64 } else { word as i32 as i64 };
+            args.push(serde_json::json!({"l": letter, "reg": true, "key": format!("r{}", regnum)}));
+        } else if l == 'f' {
+            args.push(serde_json::json!({"l": letter, "reg": false, "v": crate::export::float_json(f32::from_bits(word))}));
+        } else {
+            args.push(serde_json::json!({"l": letter, "reg": false, "v": word as i32}));
+        }
+    }
+    if pos != i.args_blob.len() { return Err(format!("blob has {} bytes, signature {} wants {}", i.args_blob.len(), sig, pos)); }
+    Ok(serde_json::json!({"time": i.time, "opcode": i.opcode, "diff": i.difficulty, "off": off, "args": args}))
+}
